@@ -1,7 +1,7 @@
 """C07 — row-stream codec: round trips over the type universe; every single-bit flip and every
 truncation point of small streams (exhaustive per stream); random bursts on larger ones."""
 PID = "C07"
-CASE_LIMIT = {"C07": 15, "C07crc": 15}
+CASE_LIMIT = {"C07": 45, "C07crc": 45}
 SUBS = ["C07", "C07crc"]   # seconds: these cases are function calls, not sessions
 PARALLEL = {"C07": 8}
 EXTRA_TARGETS = ("BS.Properties.C07c",)
